@@ -1,3 +1,207 @@
 import Cppcms.Common
-/-! Line-protocol driver for C10 (stub: model not written yet). -/
-def main : IO Unit := Cppcms.lineLoop () (fun s _ => (s, "unimplemented"))
+import Cppcms.C07.Proto
+import Cppcms.C10.Model
+import Cppcms.C10.Spec
+/-!
+`c10_model`: line-protocol driver of the C10 model and judge.
+
+model lines (answers in the harness's format):
+  cfg <srvlimit,srvlimit..> <l1,l1,..>       l1 = `n` (client without L1) or the L1's limit;  → `ok | <tail>`
+  fetch <c> <now> <key> <0|1>                 → `miss` | `hit <val> <trigs> <deadline> <gen>`   | <tail>
+  store <c> <now> <key> <val> <trigs> <deadline> | rise <c> <trig> | clear <c> | remove <c> <key>   → `ok | <tail>`
+  stats <c>                                   → `stats <keys> <triggers> | <tail>`
+  raw <srv> <now> <frame bytes>               → reply frame bytes (server side of the wire codec)
+  req fetch <key> <0|1> <gen|-> | req store <key> <val> <trigs> <deadline> | req rise <t> | req clear | req stats
+                                              → the request frame `tcp_cache` puts on the socket
+  dec <0|1 tinu> <reply frame bytes>          → what `tcp_cache::fetch` makes of a reply
+  layout | hash <n> <key>
+  <tail> = `<keys> <trigs>` of every server, then of every L1 (`n` = none), e.g. `2 5;0 0 | 1 2;n`
+judge lines: `J <impl answer> ; <case line>` evaluate `Spec.answerOk` over the ideal shared cache
+run alongside (`Spec.ideal`); answer `1` or `0 <reason>`.
+-/
+open Cppcms Cppcms.C07 Cppcms.C10
+
+structure DState where
+  cl : Cluster := { servers := [], l1s := [] }
+  sp : C07.Spec := C07.Spec.empty
+  mayEvict : Bool := false
+
+def tailStr (cl : Cluster) : String :=
+  let sv := ";".intercalate (cl.servers.map fun s => s!"{s.size} {s.trigCount}")
+  let l1 := ";".intercalate (cl.l1s.map fun o => match o with | some s => s!"{s.size} {s.trigCount}" | none => "n")
+  s!"{sv} | {l1}"
+
+def parseLimits (w : String) : Option (List Nat) := (w.splitOn ",").mapM (·.toNat?)
+def parseL1s (w : String) : Option (List (Option Nat)) :=
+  (w.splitOn ",").mapM fun p => if p == "n" then some none else p.toNat?.map some
+
+def parseTrig (w : String) : Option Key := if w == "e" then some [] else if w == "-" then none else parseHex w
+
+def outStr : Out → String
+  | .miss => "miss"
+  | .hit v ts d g => s!"hit {toHex v} {Proto.trigsStr (sortSet ts)} {d} {g.toNat}"
+  | .done => "ok"
+  | .stats k t => s!"stats {k} {t}"
+
+def parseOp (w : List String) : Option C10.Op :=
+  match w with
+  | ["fetch", c, now, k, tg] =>
+    match c.toNat?, now.toInt?, parseHex k with
+    | some c, some now, some k => some (.fetch c now now k (tg == "1"))
+    | _, _, _ => none
+  | ["store", c, now, k, v, ts, d] =>
+    match c.toNat?, now.toInt?, parseHex k, Proto.parseVal v, Proto.parseTrigs ts, d.toInt? with
+    | some c, some now, some k, some v, some ts, some d => some (.store c now k v ts d)
+    | _, _, _, _, _, _ => none
+  | ["rise", c, t] => match c.toNat?, parseTrig t with
+    | some c, some t => some (.rise c t) | _, _ => none
+  | ["clear", c] => c.toNat?.map .clear
+  | ["remove", c, k] => match c.toNat?, parseHex k with
+    | some c, some k => some (.remove c k) | _, _ => none
+  | ["stats", c] => c.toNat?.map .stats
+  | _ => none
+
+def resStr : TcpRes → String
+  | .upToDate => "uptodate"
+  | .notFound => "notfound"
+  | .found v ts d g => s!"found {toHex v} {Proto.trigsStr (sortSet ts)} {d} {g.toNat}"
+
+/-- a byte string that is exactly one frame: header + `size` payload bytes -/
+def frameOk (fr : Bytes) : Bool :=
+  fr.length ≥ Gen.hdrBytes && fr.length == Gen.hdrBytes + (Hdr.ofBytes fr).get Gen.wSize
+
+def reqHex (r : Hdr × Bytes) : String := toHex (frameBytes r.1 (r.2.take (r.1.get Gen.wSize)))
+
+/-- `cw …` lines: the request frame a real `tcp_cache` sends, and what it makes of a scripted reply -/
+def cwLine (w : List String) : String :=
+  match w with
+  | ["fetch", k, tg, g, rep] =>
+    match parseHex k, Proto.parseGen g, parseHex rep with
+    | some k, some g, some rep =>
+      if !frameOk rep then "bad-op" else
+      let (h, data) := frameOfBytes rep
+      s!"{reqHex (reqFetch k (tg == "1") g)} {resStr (cliDecodeFetch g.isSome h data)}"
+    | _, _, _ => "bad-op"
+  | ["store", k, v, ts, d, rep] =>
+    match parseHex k, Proto.parseVal v, Proto.parseTrigs ts, d.toInt?, parseHex rep with
+    | some k, some v, some ts, some d, some rep => if !frameOk rep then "bad-op" else reqHex (reqStore k v ts d)
+    | _, _, _, _, _ => "bad-op"
+  | ["rise", t, rep] =>
+    match parseTrig t, parseHex rep with
+    | some t, some rep => if !frameOk rep then "bad-op" else reqHex (reqRise t)
+    | _, _ => "bad-op"
+  | ["clear", rep] =>
+    match parseHex rep with
+    | some rep => if !frameOk rep then "bad-op" else reqHex reqClear
+    | none => "bad-op"
+  | ["stats", rep] =>
+    match parseHex rep with
+    | some rep =>
+      if !frameOk rep then "bad-op" else
+      let (h, _) := frameOfBytes rep
+      let (k, t) := if h.get Gen.wOpcode = Gen.opOutStats then (h.get Gen.wOutStatsKeys, h.get Gen.wOutStatsTriggers) else (0, 0)
+      s!"{reqHex reqStats} {k} {t}"
+    | none => "bad-op"
+  | _ => "bad-op"
+
+def modelLine (st : DState) (w : List String) : DState × String :=
+  match w with
+  | "cw" :: rest => (st, cwLine rest)
+  | ["cfg", sl, l1] =>
+    match parseLimits sl, parseL1s l1 with
+    | some sl, some l1 =>
+      let cl := Cluster.init sl l1
+      ({ cl := cl, sp := C07.Spec.empty, mayEvict := sl.any (· > 0) || l1.any (fun o => o.any (· > 0)) }, s!"ok | {tailStr cl}")
+    | _, _ => (st, "bad-op")
+  | ["raw", i, now, fr] =>
+    match i.toNat?, now.toInt?, parseHex fr with
+    | some i, some now, some fr =>
+      match st.cl.servers[i]? with
+      | some s =>
+        if !frameOk fr then (st, "bad-op") else
+        let (h, data) := frameOfBytes fr
+        let (s', rh, rdata) := srvHandle s now h data
+        ({ st with cl := st.cl.setServer i s' }, toHex (frameBytes rh rdata))
+      | none => (st, "bad-op")
+    | _, _, _ => (st, "bad-op")
+  | ["req", "fetch", k, tg, g] =>
+    match parseHex k, Proto.parseGen g with
+    | some k, some g => let (h, d) := reqFetch k (tg == "1") g; (st, toHex (frameBytes h (d.take (h.get Gen.wSize))))
+    | _, _ => (st, "bad-op")
+  | ["req", "store", k, v, ts, d] =>
+    match parseHex k, Proto.parseVal v, Proto.parseTrigs ts, d.toInt? with
+    | some k, some v, some ts, some d => let (h, dt) := reqStore k v ts d; (st, toHex (frameBytes h (dt.take (h.get Gen.wSize))))
+    | _, _, _, _ => (st, "bad-op")
+  | ["req", "rise", t] =>
+    match parseTrig t with
+    | some t => let (h, d) := reqRise t; (st, toHex (frameBytes h (d.take (h.get Gen.wSize))))
+    | none => (st, "bad-op")
+  | ["req", "clear"] => let (h, d) := reqClear; (st, toHex (frameBytes h d))
+  | ["req", "stats"] => let (h, d) := reqStats; (st, toHex (frameBytes h d))
+  | ["dec", tinu, fr] =>
+    match parseHex fr with
+    | some fr =>
+      if !frameOk fr then (st, "bad-op") else
+      let (h, data) := frameOfBytes fr
+      (st, resStr (cliDecodeFetch (tinu == "1") h data))
+    | none => (st, "bad-op")
+  | ["layout"] => (st, Gen.layoutStr)
+  | ["hash", n, k] =>
+    match n.toNat?, parseHex k with
+    | some n, some k => (st, toString (shard n k))
+    | _, _ => (st, "bad-op")
+  | _ =>
+    match parseOp w with
+    | some op =>
+      let (cl', o) := step st.cl op
+      ({ st with cl := cl' }, s!"{outStr o} | {tailStr cl'}")
+    | none => (st, "bad-op")
+
+def splitAt (sep : String) (w : List String) : List String × List String :=
+  (w.takeWhile (· ≠ sep), (w.dropWhile (· ≠ sep)).drop 1)
+
+def parseOut (res : List String) : Option Out :=
+  match res with
+  | ["miss"] => some .miss
+  | ["hit", v, ts, d, g] =>
+    match parseHex v, Proto.parseTrigs ts, d.toInt?, g.toNat? with
+    | some v, some ts, some d, some g => some (.hit v ts d (UInt64.ofNat g))
+    | _, _, _, _ => none
+  | ["ok"] => some .done
+  | ["stats", k, t] => match k.toNat?, t.toNat? with
+    | some k, some t => some (.stats k t) | _, _ => none
+  | _ => none
+
+def judgeLine (st : DState) (w : List String) : DState × String :=
+  let (implw, casew) := splitAt ";" w
+  let (res, _) := splitAt "|" implw
+  match casew with
+  | ["cfg", sl, l1] =>
+    match parseLimits sl, parseL1s l1 with
+    | some sl, some l1 =>
+      ({ st with sp := C07.Spec.empty, mayEvict := sl.any (· > 0) || l1.any (fun o => o.any (· > 0)) },
+        if res == ["ok"] then "1" else "0 cfg-answer")
+    | _, _ => (st, "0 bad-case")
+  | _ =>
+    match parseOp casew, parseOut res with
+    | some op, some out =>
+      match op with
+      | .fetch _ _ nowS k tg =>
+        (st, if Spec.answerOk st.sp nowS k st.mayEvict tg out then "1" else
+          match out with
+          | .hit _ _ _ _ => "0 fetch-returned-a-value-that-is-not-current"
+          | _ => "0 live-entry-not-found")
+      | .store _ _ k v ts d =>
+        ({ st with sp := Spec.ideal st.sp (.store k v ts d) }, if out == .done then "1" else "0 answer")
+      | .rise _ t => ({ st with sp := Spec.ideal st.sp (.rise t) }, if out == .done then "1" else "0 answer")
+      | .clear _ => ({ st with sp := Spec.ideal st.sp .clear }, if out == .done then "1" else "0 answer")
+      | .remove _ _ => (st, if out == .done then "1" else "0 answer")
+      | .stats _ => (st, match out with | .stats _ _ => "1" | _ => "0 answer")
+    | _, _ => (st, "0 bad-case")
+
+def stepLine (st : DState) (line : String) : DState × String :=
+  match words line with
+  | "J" :: rest => judgeLine st rest
+  | w => modelLine st w
+
+def main : IO Unit := lineLoop ({} : DState) stepLine
